@@ -21,7 +21,10 @@ func vStubToCommon64(b []byte, beginIdx, endIdx int) {
 	vRWCalls++
 }
 
-func vH_C16_nonce_pattern() {
+func vH_C16_nonce_pattern()  { vNoncePattern(false) }
+func vH_C16_nonce_pattern2() { vNoncePattern(true) }
+
+func vNoncePattern(twoPrefixes bool) {
 	key := vNondetBytes("key", 32)
 	c, err := newXChaCha20Poly1305BlockCipher(key)
 	vAssert(err == nil, "cipher built")
@@ -43,7 +46,6 @@ func vH_C16_nonce_pattern() {
 	np.MinLen, np.MaxLen = &minLen, &maxLen
 	applyAll := vNondetBool("applyToAllUDPPacket")
 	np.ApplyToAllUDPPacket = &applyAll
-	twoPrefixes := vNondetBool("twoPrefixes")
 	if typ == appctlpb.NonceType_NONCE_TYPE_FIXED {
 		np.CustomHexStrings = []string{"a1b2c3d4"}
 		if twoPrefixes {
